@@ -74,10 +74,46 @@ def parse_real(text):
     return g
 
 
+def forest_signature(g, max_depth=200):
+    """sorted list of 'subject predicate object' strings, a blank-node object written as the sorted list of its own
+    arcs (recursively).  Returned only when the blank nodes of g form a forest hanging from its other nodes (every
+    blank node is the object of exactly one triple and is reached from a non-blank subject): two such graphs are
+    isomorphic exactly when their signatures are equal.  None otherwise."""
+    import collections
+    import rdflib
+    indeg = collections.Counter(o for _, _, o in g if isinstance(o, rdflib.BNode))
+    bnodes = {s for s in g.subjects() if isinstance(s, rdflib.BNode)} | set(indeg)
+    if any(indeg[b] != 1 for b in bnodes):
+        return None
+    seen = [0]
+
+    def ns(n, depth):
+        if isinstance(n, rdflib.BNode):
+            if depth > max_depth:
+                raise RecursionError()
+            seen[0] += 1
+            return "[" + " ; ".join(sorted("<%s> %s" % (p, ns(o, depth + 1)) for p, o in g.predicate_objects(n))) + "]"
+        if isinstance(n, rdflib.Literal):
+            return '"%s"^^<%s>@%s' % (n, n.datatype or "", n.language or "")
+        return "<%s>" % n
+    try:
+        out = sorted("%s <%s> %s" % (ns(s, 0), p, ns(o, 1)) for s, p, o in g if not isinstance(s, rdflib.BNode))
+    except RecursionError:
+        return None
+    return out if seen[0] == len(bnodes) else None       # a blank node not reached: a cycle of blank nodes
+
+
+BIG_GRAPH = 4000     # triples; rdflib.compare.isomorphic takes minutes on documents of thousands of blank nodes
+
+
 def isomorphic(g1, g2):
     import rdflib.compare
     if len(g1) != len(g2):
         return False
+    if len(g1) > BIG_GRAPH:
+        a, b = forest_signature(g1), forest_signature(g2)
+        if a is not None and b is not None:
+            return a == b
     return rdflib.compare.isomorphic(g1, g2)
 
 
